@@ -35,7 +35,7 @@ ASSUMPTIONS = [
     "when an unknown 'sameas' coincides with a missing solver either documented error (ValueError, RuntimeError) is accepted",
     "a solver is reachable when some directory of PATH holds a program that can be executed under its name (the search goes on after a file without execute permission or one the kernel refuses); what is reachable is decided at the moment of each call, not once per process",
     "some_solver_installed(names) is expected to be true exactly when one of the names is reachable (no argument: the supported names)",
-    "only standard output (DIMACS conventions) or the result file (minisat convention) carries the answer: whatever the program writes on standard error (any bytes), and whatever a minisat-style program prints on its standard output (ASCII text), is not part of it and does not change verdict or model",
+    "only standard output (DIMACS conventions) or the result file (minisat convention) carries the answer: whatever the program writes on standard error (any bytes), and whatever a minisat-style program prints on its standard output (any bytes), is not part of it and does not change verdict or model",
     "standard output of a DIMACS-convention solver is ASCII text whose lines are comment lines ('c...'), blank lines, one 's' line and 'v' lines; line ends LF or CRLF; tokens of a 'v' line separated by blanks and tabs; the last line may lack its line end; the text may arrive in several writes",
     "names of the temporary directory and of PATH entries: any characters but tab, newline, NUL, '/' (and ':' in PATH); the path is absolute; tokens of a command line are separated by one or more blanks, blanks around it are allowed",
 ]
@@ -1315,7 +1315,7 @@ def run_channels(case):
 _ERR_IDX = st.sampled_from(range(len(fs.ERR_POOL)))
 _ERR_KIND = st.sampled_from(fs.ERR_KINDS)
 _ERR_LIST = st.lists(_ERR_IDX, max_size=3)
-_NOISE_LIST = st.lists(st.sampled_from(fs.NOISE_POOL), max_size=5)
+_NOISE_LIST = st.lists(st.sampled_from(fs.NOISE_POOL_ANY), max_size=5)
 _CUTS = st.lists(st.sampled_from(range(0, 1001)), max_size=5)
 _DELAYS = st.lists(st.sampled_from(fs.DELAYS_MS), min_size=1, max_size=3)
 _SMALL = st.sampled_from([0, 0, 0, 1, 2, 3])
@@ -1423,6 +1423,7 @@ def enum_chan_layouts():
         dict(quiet, vsplit='each', vtrail=3, chunks=[500], delays=[3], early=2, res_first=True),
         # a minisat-style program is free on its standard output
         {'noise': fs.NOISE_POOL[:10], 'err_post': E('statistics')[:1], 'res_first': True},
+        {'noise': E('non-ascii'), 'res_first': False},
         {'noise': fs.NOISE_POOL[10:], 'eol': 'crlf', 'vsep': 2, 'chunks': [500], 'err_mid': E('v-line')[:1]},
     ]
 
@@ -1538,6 +1539,6 @@ SUBCHECKS = [
              + ['err:' + k for k in fs.ERR_KINDS]
              + ['{}/err:{}'.format(c, k) for c in _CONV for k in _KEY_KINDS]
              + ['{}/{}'.format(c, k) for c in _CONV for k in ('crlf', 'several-writes', 'stderr-talks')]
-             + ['fileout-stdout-noise:' + k for k in fs.ERR_KINDS if k != 'non-ascii']
+             + ['fileout-stdout-noise:' + k for k in fs.ERR_KINDS]
              + _SOLVER_LABELS + _CONV),
 ]
